@@ -307,7 +307,7 @@ func stressors(r *evid.Run) {
 		}
 		body := strings.Repeat("x", L)
 		for _, pos := range []int{0, L / 2, L - 1} {
-			for _, esc := range []string{`\n`, `é`, `😀`} {
+			for _, esc := range []string{`\n`, `\u00e9`, `\ud83d\ude00`, `é`, `😀`} {
 				s := `"` + body[:pos] + esc + body[pos:] + `"`
 				docs = append(docs, s, `[1,`+s+`,{"k":`+s+`}]`)
 			}
